@@ -51,6 +51,13 @@ static void pr_slot(char mode, xrl_error *e) {
 #define SLOT(t) char mode = (t)[0]; xrl_error *e = NULL; xrl_error **ep = (mode == 'N') ? NULL : &e; cur_mode = mode; \
   if (mode == 'P') { xrl_set_error_literal(&e, XRL_ERROR_RUNTIME, "first error"); pre = e; diag_check(); pre_pos = diag_pos; }
 
+/* hidden-state poisoning: the library must not READ errno (or any other thread state the application may have left behind).
+   Before every operation the driver leaves a different value there, as an application that has just overflowed a strtod, taken
+   the log of a negative number or failed an allocation would; the answers must not depend on it.  (Seeded changes C02-9, C06-9,
+   C07-9, C12-9, C15-10, C16-7: "errno == ERANGE" tests without clearing errno first.) */
+#include <errno.h>
+static void xv_poison_errno(void) { static unsigned k; static const int v[4] = {ERANGE, EDOM, ENOMEM, 0}; errno = v[k++ & 3]; }
+
 #include "cdrv_gen.inc"
 #ifdef CDRV_EXTRA
 #include "cdrv_extra.inc"
@@ -62,6 +69,7 @@ int main(void) {
   setvbuf(stdout, NULL, _IOLBF, 0);
   diag = tmpfile(); if (diag) stderr = diag;
   while (fgets(line, sizeof line, stdin)) {
+    xv_poison_errno();
     int nt = 0;
     for (char *p = strtok(line, " \n"); p && nt < 64; p = strtok(NULL, " \n")) tok[nt++] = p;
     if (nt == 0) continue;
